@@ -40,7 +40,8 @@ REQUIRED = ('showdowns_checked', 'side_pot_showdowns', 'tied_pots',
             'multi_board_showdowns', 'hilo_showdowns',
             'lone_survivor_hands', 'raked_showdowns',
             'low_not_qualified_showdowns', 'odd_chip_pushes',
-            'trees_completed', 'explored_nodes')
+            'trees_completed', 'explored_nodes',
+            'forks')
 
 CUSTOMS = ('holdem8', 'plo8', 'greek', 'courchevel', 'draw5', 'badugi1',
            'stud5', 'kuhn', 'razzdraw', 'random')
@@ -122,6 +123,8 @@ def gen_kwargs(rng):
 
 
 def pol_tweak(pol, cfg, rng):
+    if rng.random() < 0.4:
+        pol['fork_p'] = 0.03     # continue on a deepcopy mid-hand
     pol['policy'] = rng.choice(['passive', 'passive', 'aggressive', 'allin',
                                 'uniform'])
 
